@@ -2614,7 +2614,7 @@ def run(ctx):
         for ops in lifecycle_histories(2):
             go('interleavings-exhaustive', ops)
         alpha = lifecycle_alphabet()
-        for _ in range(300):
+        for _ in range(260):
             go('interleavings-exhaustive', lifecycle_history([ctx.rng.choice(alpha) for _ in range(3)]))
     else:
         for ops in lifecycle_histories(3):
